@@ -13,6 +13,7 @@ import (
 	"os"
 	"path/filepath"
 	"runtime"
+	"sort"
 	"strings"
 	"sync"
 	"sync/atomic"
@@ -29,7 +30,10 @@ import (
 type c07Spec struct {
 	Text string `json:"text,omitempty"`
 	Path string `json:"path,omitempty"` // corpus file below the tree under test
-	Kind string `json:"kind"`           // chain | tmpl | intent | corpus
+	Kind string `json:"kind"`           // chain | tmpl | intent | corpus | rejected | module
+	// module: a specification spread over files of an in-memory filesystem, compiled from Root
+	Files map[string]string `json:"files,omitempty"`
+	Root  string            `json:"root,omitempty"`
 }
 
 type c07Case struct {
@@ -103,6 +107,9 @@ func genC07(t *rapid.T) c07Case {
 			for _, cl := range tm.Classes {
 				classes[cl] = true
 			}
+		case kind == 2:
+			s = c07GenModule(t)
+			classes["spec_in_several_files"] = true
 		case kind <= 3 || len(c07Corpus()) == 0:
 			s = c07Spec{Text: Render(GenIntent(t), pick(t, indentPool, "indent")), Kind: "intent"}
 		default:
@@ -160,6 +167,55 @@ func c07GenRejected(t *rapid.T) string {
 	return tm.Text + "\n" + bad
 }
 
+// c07GenModule draws a specification in several files (C04's partitions) whose files end in different ways —
+// with or without a final newline, with trailing blank lines, with a comment — and, in half of the cases,
+// with an import-only bundle file as the last file of the closure (its last line an import statement): the
+// lexer is left in a different state at the end of each.
+func c07GenModule(t *rapid.T) c07Spec {
+	c := genC04(t)
+	s := c07Spec{Kind: "module", Files: map[string]string{}, Root: c.Root}
+	var names []string
+	for n := range c.Files {
+		names = append(names, n)
+	}
+	sort.Strings(names)
+	for _, n := range names {
+		txt := c.Files[n]
+		switch rapid.IntRange(0, 4).Draw(t, "fileend") {
+		case 0:
+			txt = strings.TrimRight(txt, "\n")
+		case 1:
+			txt += "\n\n"
+		case 2:
+			txt = strings.TrimRight(txt, "\n") + "\n# end"
+		}
+		s.Files[n] = txt
+	}
+	if len(names) > 1 && rapid.Bool().Draw(t, "bundle") {
+		var b strings.Builder
+		for _, n := range names {
+			if n != c.Root {
+				b.WriteString("import /" + strings.TrimSuffix(n, ".sysl") + "\n")
+			}
+		}
+		bundle := b.String()
+		if rapid.IntRange(0, 2).Draw(t, "bundlenl") != 0 {
+			bundle = strings.TrimRight(bundle, "\n")
+		}
+		s.Files["bundle.sysl"] = bundle
+		lines := strings.Split(s.Files[c.Root], "\n")
+		last := -1
+		for i, l := range lines {
+			if strings.HasPrefix(l, "import ") {
+				last = i
+			}
+		}
+		lines = append(lines[:last+1], append([]string{"import /bundle"}, lines[last+1:]...)...)
+		s.Files[c.Root] = strings.Join(lines, "\n")
+	}
+	return s
+}
+
 func sortStrings(s []string) {
 	for i := 1; i < len(s); i++ {
 		for j := i; j > 0 && s[j] < s[j-1]; j-- {
@@ -169,6 +225,15 @@ func sortStrings(s []string) {
 }
 
 func c07Compile(s c07Spec) (*sysl.Module, error) {
+	if len(s.Files) > 0 {
+		fs := afero.NewMemMapFs()
+		for n, txt := range s.Files {
+			if err := afero.WriteFile(fs, n, []byte(txt), 0o644); err != nil {
+				return nil, err
+			}
+		}
+		return parse.NewParser().ParseFromFs(s.Root, fs)
+	}
 	if s.Path != "" {
 		full := filepath.Join(cfg.Repo, s.Path)
 		fs := afero.NewBasePathFs(afero.NewOsFs(), filepath.Dir(full))
@@ -239,6 +304,9 @@ func (a c07Out) diff(b c07Out) string {
 }
 
 func c07Label(s c07Spec) string {
+	if len(s.Files) > 0 {
+		return c04SplitText(c04Case{Files: s.Files, Root: s.Root})
+	}
 	if s.Path != "" {
 		return "corpus file " + s.Path
 	}
@@ -294,6 +362,27 @@ func c07Concurrent(c c07Case) *c07ConcRes {
 				return false
 			}
 			cl("sequential_repeat")
+		}
+		// ---- pairs: what one compilation leaves behind must not reach the next one (a specification in several
+		// files ends its lexers in many different states: mid-import, without a final newline, after a comment)
+		pairs := 0
+		for i, s := range c.Specs {
+			if s.Kind != "module" {
+				continue
+			}
+			for j := 0; j < len(c.Specs) && pairs < 12; j++ {
+				if j == i {
+					continue
+				}
+				pairs++
+				for _, k := range []int{i, j} {
+					if d := base[k].diff(c07Run(c.Specs[k])); d != "" {
+						res.Violation = fmt.Sprintf("compilation of spec %d right after spec %d differs from its first compilation: %s\n---- %s\n---- compiled before it:\n%s", k, i, d, c07Label(c.Specs[k]), c07Label(c.Specs[i]))
+						return false
+					}
+				}
+				cl("compiled_right_after_a_multi_file_spec")
+			}
 		}
 		// ---- rejected compilations, a collection, accepted compilations
 		for r := 0; r < c.GCRounds; r++ {
